@@ -256,6 +256,12 @@ def corpus():
            lambda s, n: 'self._analysis_data = data[columns[3]].groupby([data[columns[0]], data[columns[1]], (self._data[self._df_names.group] == self._groups.treatment).rename(columns[2])]).sum().unstack(columns[2]).rename(columns={False: "x", True: "y"})'))
   add('C19', 'report a different list than removed', 'bad', 'R2/report-equals-removal',
       edit(td, 'TBRDiagnostics.fit', lambda n: isinstance(n, ast.Assign) and norm(n.targets[0]) == "self._diagnostics['noisy_geos']", lambda s, n: "self._diagnostics['noisy_geos'] = sorted(remove_geos or [])[:1]"))
+  add('C19', 'reported geos removed by row label instead of by the mask (a non-unique index loses more rows)', 'bad', 'R2/report-equals-removal',
+      edit(td, 'TBRDiagnostics.fit', lambda n: isinstance(n, ast.Assign) and norm(n) == 'self._data = self._data[~exclude]',
+           lambda s, n: 'self._data = self._data.drop(index=self._data.index[exclude])'))
+  add('C19', 'benign: the kept rows are selected with .loc and the negated mask', 'nonviolation', None,
+      edit(td, 'TBRDiagnostics.fit', lambda n: isinstance(n, ast.Assign) and norm(n) == 'self._data = self._data[~exclude]',
+           lambda s, n: 'self._data = self._data.loc[~exclude]'))
   add('C19', 'mask not negated', 'bad', 'R2/report-equals-removal', edit(td, 'TBRDiagnostics.fit', lambda n: isinstance(n, ast.UnaryOp) and isinstance(n.op, ast.Invert) and norm(n.operand) == 'exclude', 'exclude'))
   add('C19', 'second _create_analysis_data() removed', 'bad', 'R3/reaggregate', delete_stmt(td, 'TBRDiagnostics.fit', lambda n: isinstance(n, ast.Expr) and norm(n) == 'self._create_analysis_data()', 1))
   add('C19', 'in-place edit of the caller frame', 'bad', 'R1/ownership', edit(td, 'TBRDiagnostics.fit', lambda n: isinstance(n, ast.Assign) and norm(n.targets[0]) == 'self._data' and 'copy' in norm(n.value),
